@@ -1,5 +1,274 @@
-"""Variant liveness (thorough tier) -- filled in per property later."""
+"""Variant liveness (thorough tier, DESIGN 1): each variant is an edit of one source file
+that breaks the property (kind 'bad': the named rule must fire) or is behaviour-preserving
+(kind 'ok': the check must stay silent).  Variants are applied to an in-memory overlay of
+/repo -- no scratch copy on disk.  A variant whose anchor text no longer occurs exactly once
+is reported as skipped and never changes the exit code."""
+import concurrent.futures as cf
+import importlib
+import os
+
+from .model import AnalysisError, Repo
+from . import report
+
+K = 'sqlparse/keywords.py'
+L = 'sqlparse/lexer.py'
+S = 'sqlparse/sql.py'
+G = 'sqlparse/engine/grouping.py'
+SP = 'sqlparse/engine/statement_splitter.py'
+FS = 'sqlparse/engine/filter_stack.py'
+I = 'sqlparse/__init__.py'
+U = 'sqlparse/utils.py'
+FO = 'sqlparse/filters/others.py'
+FT = 'sqlparse/filters/tokens.py'
+FR = 'sqlparse/filters/reindent.py'
+FA = 'sqlparse/filters/aligned_indent.py'
+FM = 'sqlparse/formatter.py'
+C = 'sqlparse/cli.py'
+T = 'sqlparse/tokens.py'
+
+
+def V(vid, prop, kind, rule, file, old, new, note=''):
+    return dict(id=vid, prop=prop, kind=kind, rule=rule, file=file, old=old, new=new, note=note)
+
+
+VARIANTS = [
+    # ---- C01
+    V('c01-ws-star', 'C01', 'bad', 'R1.2', K, r"(r'\s+?', tokens.Whitespace)", r"(r'\s*?', tokens.Whitespace)", 'zero-width whitespace rule'),
+    V('c01-lookahead-row', 'C01', 'bad', 'R1.2', K, "    (r':=', tokens.Assignment),", "    (r'(?=;)', tokens.Punctuation),\n    (r':=', tokens.Assignment),"),
+    V('c01-skip-count', 'C01', 'bad', 'R1.4', L, 'consume(iterable, m.end() - pos - 1)', 'consume(iterable, m.end() - pos)'),
+    V('c01-group1', 'C01', 'bad', 'R1.4', L, 'yield action, m.group()', 'yield action, m.group(1)'),
+    V('c01-search', 'C01', 'bad', 'R1.6', L, '(re.compile(rx, FLAGS).match, tt)', '(re.compile(rx, FLAGS).search, tt)'),
+    V('c01-expandtabs', 'C01', 'bad', 'R1.8', L, "        if isinstance(text, str):\n            pass", "        if isinstance(text, str):\n            text = text.expandtabs()"),
+    V('c01-kwdict-value', 'C01', 'bad', 'R1.5', L, 'return kwdict[val], value', 'return kwdict[val], val'),
+    V('c01-no-else', 'C01', 'bad', 'R1.4', L, "                break\n            else:\n                yield tokens.Error, char", "                break"),
+    V('c01-string-action', 'C01', 'bad', 'R1.3', K, r"(r'\?', tokens.Name.Placeholder)", r"(r'\?', 'placeholder')"),
+    V('c01-ok-rename', 'C01', 'ok', '', L, None, None, 'rename iterable -> it (whole file)'),
+    V('c01-ok-local-value', 'C01', 'ok', '', L, 'yield action, m.group()', 'yield action, m.group(0)'),
+    V('c01-ok-reorder-rows', 'C01', 'ok', '', K, "    (r':=', tokens.Assignment),\n    (r'::', tokens.Punctuation),", "    (r'::', tokens.Punctuation),\n    (r':=', tokens.Assignment),"),
+    # ---- C02
+    V('c02-del-slice', 'C02', 'bad', 'R2.6', S, 'del self.tokens[start_idx + 1:end_idx]', 'del self.tokens[start_idx + 1:end_idx + 1]'),
+    V('c02-skip-error', 'C02', 'bad', 'R2.1', SP, "            # Change current split level (increase, decrease or remain equal)", "            if ttype in T.Error:\n                continue\n            # Change current split level (increase, decrease or remain equal)"),
+    V('c02-reset-clear', 'C02', 'bad', 'R2.2', SP, '        self.tokens = []', '        self.tokens.clear()'),
+    V('c02-flush-any', 'C02', 'bad', 'R2.3', SP, 'if self.tokens and not all(t.is_whitespace for t in self.tokens):', 'if self.tokens and not any(t.is_whitespace for t in self.tokens):'),
+    V('c02-join-blank', 'C02', 'bad', 'R2.4', S, "return ''.join(token.value for token in self.flatten())", "return ' '.join(token.value for token in self.flatten())"),
+    V('c02-pass-pops', 'C02', 'bad', 'R2.5', G, "def group_values(tlist):\n", "def group_values(tlist):\n    tlist.tokens.pop() if tlist.tokens and tlist.tokens[-1].is_whitespace else None\n"),
+    V('c02-token-strip', 'C02', 'bad', 'R2.4', S, '        value = str(value)\n        self.value = value', '        value = str(value).strip()\n        self.value = value'),
+    V('c02-parse-filter', 'C02', 'bad', 'R2.7', I, '    stack.enable_grouping()\n    return stack.run(stream, encoding)', '    stack.enable_grouping()\n    stack.stmtprocess.append(filters.StripWhitespaceFilter())\n    return stack.run(stream, encoding)'),
+    V('c02-ok-extract', 'C02', 'ok', '', S, '        end_idx = end + include_end', '        end_idx = end + 1 if include_end else end', 'equivalent rewrite is not linear: must not raise an alarm... (skipped if undetermined)'),
+    V('c02-ok-new-pass', 'C02', 'ok', '', G, "def group_values(tlist):\n", "def group_noop(tlist):\n    tidx, token = tlist.token_next_by(m=(T.Keyword, 'NOOP'))\n    if token:\n        tlist.group_tokens(sql.TokenList, tidx, tidx)\n\n\ndef group_values(tlist):\n"),
+    # ---- C03
+    V('c03-no-child-parent', 'C03', 'bad', 'R3.2', S, '        for token in subtokens:\n            token.parent = grp\n', ''),
+    V('c03-no-value-refresh', 'C03', 'bad', 'R3.3', S, '            grp.value = str(start)\n', ''),
+    V('c03-offset-plus1', 'C03', 'bad', 'R3.4', G, '                tidx_offset += to_idx - from_idx\n', '                tidx_offset += to_idx - from_idx + 1\n'),
+    V('c03-retype-keyword', 'C03', 'bad', 'R3.1b', G, 'tlist[tidx].ttype = T.Operator', 'tlist[tidx].ttype = T.Keyword'),
+    V('c03-order-no-resume', 'C03', 'bad', 'R3.4b', G, '            tlist.group_tokens(sql.Identifier, pidx, tidx)\n            tidx = pidx\n', '            tlist.group_tokens(sql.Identifier, pidx, tidx)\n'),
+    V('c03-accessor-ctor', 'C03', 'bad', 'R3.6', S, "        _, token = self.token_next_by(t=T.Wildcard)\n        return token is not None", "        _, token = self.token_next_by(t=T.Wildcard)\n        return token is not None or Identifier(self.tokens).get_name() == '*'"),
+    V('c03-reversed-bounds', 'C03', 'bad', 'R3.5', G, '            tlist.group_tokens(sql.Over, tidx, nidx)', '            tlist.group_tokens(sql.Over, nidx, tidx)'),
+    V('c03-ok-rename', 'C03', 'ok', '', G, None, None, 'rename tidx_offset -> shift (whole file)'),
+    # ---- C04
+    V('c04-split-preprocess', 'C04', 'bad', 'R4.1', I, '    stack = engine.FilterStack(strip_semicolon=strip_semicolon)\n', '    stack = engine.FilterStack(strip_semicolon=strip_semicolon)\n    stack.preprocess.append(filters.KeywordCaseFilter())\n'),
+    V('c04-split-only-ungrouped', 'C04', 'bad', 'R4.2', FS, '            stream = StatementSplitter().process(stream)\n', '            if not self._grouping:\n                stream = StatementSplitter().process(stream)\n'),
+    V('c04-strip-semicolon-char', 'C04', 'bad', 'R4.1', I, 'return [str(stmt).strip() for stmt in stack.run(sql, encoding)]', "return [str(stmt).strip(';') for stmt in stack.run(sql, encoding)]"),
+    V('c04-dcl', 'C04', 'bad', 'R4.6', L, '        with cls._lock:\n            if cls._default_instance is None:', '        if cls._default_instance is None:\n          with cls._lock:\n            if cls._default_instance is None:'),
+    V('c04-ok-rename', 'C04', 'ok', '', I, '    stack = engine.FilterStack(strip_semicolon=strip_semicolon)\n    return [str(stmt).strip() for stmt in stack.run(sql, encoding)]', '    fstack = engine.FilterStack(strip_semicolon=strip_semicolon)\n    return [str(stmt).strip() for stmt in fstack.run(sql, encoding)]'),
+    # ---- C05
+    V('c05-begin-outside-create', 'C05', 'bad', 'R5.3', SP, "            self._begin_depth += 1\n            if self._is_create:\n                # FIXME(andi): This makes no sense.  ## this comment neither\n                return 1\n            return 0", "            self._begin_depth += 1\n            return 1"),
+    V('c05-loop-opener', 'C05', 'bad', 'R5.3', SP, "        # Default\n        return 0", "        if unified == 'LOOP':\n            return 1\n\n        # Default\n        return 0"),
+    V('c05-value-count', 'C05', 'bad', 'R5.2', SP, "        elif ttype not in T.Keyword:  # if normal token return\n            return 0", "        elif value.count(';') > 1:\n            return -1\n        elif ttype not in T.Keyword:  # if normal token return\n            return 0"),
+    V('c05-no-level-test', 'C05', 'bad', 'R5.4', SP, "if (self.level <= 0 and ttype is T.Punctuation and value == ';') \\", "if (ttype is T.Punctuation and value == ';') \\"),
+    V('c05-lazy-string', 'C05', 'bad', 'R5.5', K, r'''(r"'(''|\\'|[^'])*'", tokens.String.Single)''', r'''(r"'(''|\\'|[^'])*?'", tokens.String.Single)'''),
+    V('c05-greedy-comment', 'C05', 'bad', 'R5.5', K, r"(r'/\*[\s\S]*?\*/', tokens.Comment.Multiline)", r"(r'/\*[\s\S]*\*/', tokens.Comment.Multiline)"),
+    V('c05-ok-string-rewrite', 'C05', 'ok', '', K, r'''(r"'(''|\\'|[^'])*'", tokens.String.Single)''', r'''(r"'(?:''|\\'|[^'])*'", tokens.String.Single)'''),
+    # ---- C06
+    V('c06-pop-unguarded', 'C06', 'bad', 'R6.1', FO, '        while tlist.tokens[1].is_whitespace:\n            tlist.tokens.pop(1)', '        tlist.tokens.pop(1)'),
+    V('c06-blank-comments', 'C06', 'bad', 'R6.1', FO, "            if token.is_whitespace:\n                token.value = '' if last_was_ws or is_first_char else ' '", "            if token.is_whitespace or token.ttype in T.Comment:\n                token.value = '' if last_was_ws or is_first_char else ' '"),
+    V('c06-nl-punct', 'C06', 'bad', 'R6.1', FR, "        return sql.Token(\n            T.Whitespace,\n            self.n + self.char * max(0, self.leading_ws + offset))", "        return sql.Token(\n            T.Punctuation,\n            ';' + self.n + self.char * max(0, self.leading_ws + offset))"),
+    V('c06-user-indent-char', 'C06', 'bad', 'R6.1', FM, "        options['indent_char'] = ' '", "        options['indent_char'] = options.get('indent_char', ' ')"),
+    V('c06-delete-comment-prev', 'C06', 'bad', 'R6.1', FR, "            if prev_ and prev_.is_whitespace:\n                del tlist.tokens[pidx]\n                tidx -= 1\n\n            if not (uprev", "            if prev_ and (prev_.is_whitespace or prev_.ttype in T.Comment):\n                del tlist.tokens[pidx]\n                tidx -= 1\n\n            if not (uprev"),
+    V('c06-order', 'C06', 'bad', 'R6.3', FM, "    if options.get('use_space_around_operators', False):\n        stack.enable_grouping()\n        stack.stmtprocess.append(filters.SpacesAroundOperatorsFilter())\n\n", ""),
+    V('c06-handler-rename', 'C06', 'bad', 'R6.4', FR, 'def _process_identifierlist(self, tlist):', 'def _process_identifier_list(self, tlist):'),
+    V('c06-ok-is-whitespace-var', 'C06', 'ok', '', FO, "            if token.is_whitespace:\n                token.value = '' if last_was_ws or is_first_char else ' '", "            if token.is_whitespace:\n                token.value = ' ' if not (last_was_ws or is_first_char) else ''", 'equivalent rewrite of the blanking rule'),
+    # ---- C07
+    V('c07-no-first-guard', 'C07', 'bad', 'R7.3', FR, "        if first is None:\n            return\n", ""),
+    V('c07-valid-next-none', 'C07', 'bad', 'R7.3', G, "        return token is not None and token.match(*sql.TypedLiteral.M_CLOSE)", "        return token.match(*sql.TypedLiteral.M_CLOSE)"),
+    V('c07-int-valueerror-only', 'C07', 'bad', 'R7.2', FM, "        indent_width = int(indent_width)\n    except (TypeError, ValueError):", "        indent_width = int(indent_width)\n    except ValueError:"),
+    V('c07-no-wrap-validation', 'C07', 'bad', 'R7.2', FM, "    try:\n        wrap_after = int(wrap_after)\n    except (TypeError, ValueError):\n        raise SQLParseError('wrap_after requires an integer')\n    if wrap_after < 0:\n        raise SQLParseError('wrap_after requires a positive integer')\n", ""),
+    V('c07-raise-valueerror', 'C07', 'bad', 'R7.1', FO, "    def _stripws_parenthesis(self, tlist):\n", "    def _stripws_parenthesis(self, tlist):\n        if len(tlist.tokens) < 2:\n            raise ValueError('unbalanced parenthesis')\n"),
+    V('c07-set-literal', 'C07', 'bad', 'R7.2', FM, "if strip_comments not in [True, False]:", "if strip_comments not in {True, False}:"),
+    V('c07-get-window-old', 'C07', 'bad', 'R7.3', S, "        _, over_clause = self.token_next_by(i=Over)\n        if over_clause is None:\n            return None\n        return over_clause.tokens[-1]", "        over_clause = self.token_next_by(i=Over)\n        if not over_clause:\n            return None\n        return over_clause[1].tokens[-1]", 'the defect fixed by cc8c9bb'),
+    V('c07-truncate-char-old', 'C07', 'bad', 'R7.2', FM, "        truncate_char = options.get('truncate_char', '[...]')\n        if not isinstance(truncate_char, str):\n            raise SQLParseError('Invalid value for truncate_char: '\n                                '{!r}'.format(truncate_char))\n        options['truncate_char'] = truncate_char", "        options['truncate_char'] = options.get('truncate_char', '[...]')", 'the defect fixed by 57b4c88'),
+    V('c07-new-subscript', 'C07', 'bad', 'R7.4', FO, "    def _stripws_identifierlist(self, tlist):\n", "    def _stripws_identifierlist(self, tlist):\n        first = tlist.tokens[3]\n"),
+    V('c07-unbound', 'C07', 'bad', 'R7.5', FR, "        adjusted_offset = 0\n            if (self.wrap_after > 0", "        if self.wrap_after:\n                adjusted_offset = 0\n            if (self.wrap_after > 0"),
+    V('c07-ok-not-token', 'C07', 'ok', '', FR, "        if first is None:\n            return\n", "        if not first:\n            return\n"),
+    V('c07-ok-reorder-validation', 'C07', 'ok', '', FM, "    comma_first = options.get('comma_first', False)\n    if comma_first not in [True, False]:\n        raise SQLParseError('comma_first requires a boolean value')\n    options['comma_first'] = comma_first\n\n    compact = options.get('compact', False)\n    if compact not in [True, False]:\n        raise SQLParseError('compact requires a boolean value')\n    options['compact'] = compact\n", "    compact = options.get('compact', False)\n    if compact not in [True, False]:\n        raise SQLParseError('compact requires a boolean value')\n    options['compact'] = compact\n\n    comma_first = options.get('comma_first', False)\n    if comma_first not in [True, False]:\n        raise SQLParseError('comma_first requires a boolean value')\n    options['comma_first'] = comma_first\n"),
+    # ---- C08
+    V('c08-name-containment', 'C08', 'bad', 'R8.2', FT, "    ttype = T.Name, T.String.Symbol\n", "    ttype = T.Name\n"),
+    V('c08-upper-outside', 'C08', 'bad', 'R8.1', FT, "            if ttype in self.ttype:\n                value = self.convert(value)\n            yield ttype, value", "            if ttype in self.ttype:\n                value = self.convert(value)\n            value = value.upper()\n            yield ttype, value"),
+    V('c08-width-plus1', 'C08', 'bad', 'R8.1', FT, "inner[:self.width]", "inner[:self.width + 1]"),
+    V('c08-no-separator', 'C08', 'bad', 'R8.3', FO, "                if prev_ is not None and not prev_.match(T.Punctuation, '('):\n                    tlist.tokens.insert(tidx, _get_insert_token(token))\n", ""),
+    V('c08-hint-dropped', 'C08', 'bad', 'R8.3', FO, "sql_hints = (T.Comment.Multiline.Hint, T.Comment.Single.Hint)", "sql_hints = (T.Comment.Multiline.Hint,)"),
+    V('c08-remove-next', 'C08', 'bad', 'R8.3', FO, "                tlist.tokens.remove(token)\n", "                tlist.tokens.remove(token)\n                tlist.tokens.remove(next_) if next_ is not None and next_.is_whitespace else None\n"),
+    V('c08-case-in-stmtprocess', 'C08', 'bad', 'R8.4', FM, "        stack.preprocess.append(\n            filters.KeywordCaseFilter(options['keyword_case']))", "        stack.postprocess.append(\n            filters.KeywordCaseFilter(options['keyword_case']))"),
+    V('c08-ok-str-upper', 'C08', 'ok', '', FT, "        self.convert = getattr(str, case)", "        self.convert = getattr(str, case)  # upper / lower / capitalize"),
+    # ---- C09
+    V('c09-pop0', 'C09', 'bad', 'R9.1', G, 'open_idx = opens.pop()', 'open_idx = opens.pop(0)'),
+    V('c09-offset-minus1', 'C09', 'bad', 'R9.2', G, 'tidx_offset += close_idx - open_idx\n', 'tidx_offset += close_idx - open_idx - 1\n'),
+    V('c09-no-continue-descend', 'C09', 'bad', 'R9.1', G, "            _group_matching(token, cls)\n            continue\n", "            _group_matching(token, cls)\n"),
+    V('c09-paren-late', 'C09', 'bad', 'R9.4', G, "        group_brackets,\n        group_parenthesis,\n", "        group_brackets,\n"),
+    V('c09-endif-spelling', 'C09', 'bad', 'R9.3', S, "    M_CLOSE = T.Keyword, 'END IF'", "    M_CLOSE = T.Keyword, 'ENDIF'"),
+    V('c09-no-delims', 'C09', 'bad', 'R9.5', G, "                    and prev_ not in delimiters and next_ not in delimiters:", "                    and True:", 'the defect fixed by 3f597f9'),
+    V('c09-no-groupable-begin', 'C09', 'bad', 'R9.6', S, "    M_OPEN = T.Keyword, 'BEGIN'\n    M_CLOSE = T.Keyword, 'END'\n\n    @property\n    def _groupable_tokens(self):\n        return self.tokens[1:-1]\n", "    M_OPEN = T.Keyword, 'BEGIN'\n    M_CLOSE = T.Keyword, 'END'\n", 'the defect fixed by 2b5db94'),
+    V('c09-ok-rename', 'C09', 'ok', '', G, None, None, 'rename opens -> stack (whole file)'),
+    # ---- C10
+    V('c10-reindent-before-strip', 'C10', 'bad', 'R10.2', FM, "    if options.get('strip_whitespace') or options.get('reindent'):\n        stack.enable_grouping()\n        stack.stmtprocess.append(filters.StripWhitespaceFilter())\n\n", ""),
+    V('c10-no-having', 'C10', 'bad', 'R10.1', FR, "'SET', 'BETWEEN', 'EXCEPT', 'HAVING', 'LIMIT')", "'SET', 'BETWEEN', 'EXCEPT', 'LIMIT')"),
+    V('c10-no-prev-branch', 'C10', 'bad', 'R10.3', FO, "            if prev_ and prev_.ttype != T.Whitespace:\n                tlist.insert_before(tidx, sql.Token(T.Whitespace, ' '))\n                tidx += 1  # has to shift since token inserted before it\n", ""),
+    V('c10-no-rstrip', 'C10', 'bad', 'R10.4', FO, "return '\\n'.join(line.rstrip() for line in lines)", "return '\\n'.join(line for line in lines)"),
+    V('c10-no-strip-implied', 'C10', 'bad', 'R10.2', FM, "    elif reindent:\n        options['strip_whitespace'] = True\n", "    elif reindent:\n        pass\n"),
+    # ---- C11
+    V('c11-as-value', 'C11', 'bad', 'R11.1', G, "        return token.is_keyword and token.normalized == 'AS'", "        return token.is_keyword and token.value == 'AS'"),
+    V('c11-not-null-blank', 'C11', 'bad', 'R11.3', K, r"(r'NOT\s+NULL\b', tokens.Keyword)", r"(r'NOT NULL\b', tokens.Keyword)"),
+    V('c11-aliased-no-skip', 'C11', 'bad', 'R11.4', G, "        nidx, next_ = tlist.token_next(tidx)\n        if isinstance(next_, sql.Identifier):", "        nidx, next_ = tlist.token_next(tidx, skip_ws=False)\n        if isinstance(next_, sql.Identifier):"),
+    V('c11-normalized-old', 'C11', 'bad', 'R11.2', S, "        self.normalized = (' '.join(value.upper().split())\n                           if self.is_keyword else value)", "        self.normalized = value.upper() if self.is_keyword else value", 'the defect fixed by 097c205'),
+    V('c11-go-case', 'C11', 'bad', 'R11.1', SP, "and value.split()[0].upper() == 'GO'):", "and value.split()[0] == 'GO'):", 'the defect fixed by cfdb8eb'),
+    V('c11-ok-casefold', 'C11', 'ok', '', G, "        if tmp_token.value.upper() == 'AS':", "        if tmp_token.normalized == 'AS':"),
+    # ---- C12
+    V('c12-no-backtick', 'C12', 'bad', 'R12.1', U, "if val[0] in ('\"', \"'\", '`') and val[0] == val[-1]:", "if val[0] in ('\"', \"'\") and val[0] == val[-1]:"),
+    V('c12-parent-no-skip', 'C12', 'bad', 'R12.3', S, "        _, prev_ = self.token_prev(dot_idx)\n", "        _, prev_ = self.token_prev(dot_idx, skip_ws=False)\n"),
+    V('c12-no-symbol', 'C12', 'bad', 'R12.2', G, "    ttypes = (T.String.Symbol, T.Name)\n\n    tidx, token = tlist.token_next_by(t=ttypes)", "    ttypes = (T.Name,)\n\n    tidx, token = tlist.token_next_by(t=ttypes)"),
+    # ---- C13
+    V('c13-no-returning', 'C13', 'bad', 'R13.1', S, "        'HAVING', 'RETURNING', 'INTO')", "        'HAVING', 'INTO')"),
+    V('c13-identifiers-drop-comments', 'C13', 'bad', 'R13.2', S, "            if not (token.is_whitespace or token.match(T.Punctuation, ',')):", "            if not (token.is_whitespace or token.ttype in T.Punctuation):"),
+    V('c13-params-old', 'C13', 'bad', 'R13.3', S, "            elif imt(token, i=(Function, Identifier, TypedLiteral, Operation,\n                               Comparison, Case, Parenthesis),\n                     t=T.Literal):", "            elif imt(token, i=(Function, Identifier, TypedLiteral),\n                     t=T.Literal):", 'the defect fixed by 9fe9fd9'),
+    # ---- C14
+    V('c14-lazy-string', 'C14', 'bad', 'R14.1', K, r'''(r"'(''|\\'|[^'])*'", tokens.String.Single)''', r'''(r"'(''|[^'])*?'", tokens.String.Single)'''),
+    V('c14-greedy-comment', 'C14', 'bad', 'R14.1', K, r"(r'/\*[\s\S]*?\*/', tokens.Comment.Multiline)", r"(r'/\*[\s\S]*\*/', tokens.Comment.Multiline)"),
+    V('c14-dq-after-word', 'C14', 'bad', 'R14.1', K, "    (r'\"(\"\"|\\\\\"|[^\"])*\"', tokens.String.Symbol),\n", ""),
+    V('c14-new-prefix-rule', 'C14', 'bad', 'R14.6', K, "    (r'\\?', tokens.Name.Placeholder),", "    (r\"[NE]'[^']*'\", tokens.String.Single),\n    (r'\\?', tokens.Name.Placeholder),"),
+    V('c14-no-oracle', 'C14', 'bad', 'R14.3', L, "        self.add_keywords(keywords.KEYWORDS_ORACLE)\n", ""),
+    V('c14-lower', 'C14', 'bad', 'R14.4', L, "        val = value.upper()\n        for kwdict", "        val = value.lower()\n        for kwdict"),
+    V('c14-dollar-ci', 'C14', 'bad', 'R14.1', K, r"[\s\S]*?(?-i:\1)', tokens.Literal)", r"[\s\S]*?\1', tokens.Literal)", 'the defect fixed by eae05f0'),
+    V('c14-ok-string-rewrite', 'C14', 'ok', '', K, r'''(r"'(''|\\'|[^'])*'", tokens.String.Single)''', r'''(r"'(?:[^']|''|\\')*'", tokens.String.Single)''', 'different alternative order: same extents? (only if priorities agree)'),
+    # ---- C15
+    V('c15-try-only-group', 'C15', 'bad', 'R15.1', FS, None, None, 'the 0.5.0 shape: try only around grouping'),
+    V('c15-serializer-outside', 'C15', 'bad', 'R15.2', I, "    stack.postprocess.append(filters.SerializerUnicode())\n    return ''.join(stack.run(sql, encoding))", "    return ''.join(filters.SerializerUnicode().process(s) for s in stack.run(sql, encoding))"),
+    V('c15-split-grouping', 'C15', 'bad', 'R15.3', I, "    stack = engine.FilterStack(strip_semicolon=strip_semicolon)\n", "    stack = engine.FilterStack(strip_semicolon=strip_semicolon)\n    stack.enable_grouping()\n"),
+    V('c15-keyerror-handler', 'C15', 'bad', 'R15.1', FS, "        except RecursionError as err:", "        except KeyError as err:"),
+    V('c15-ok-runtimeerror', 'C15', 'ok', '', FS, "        except RecursionError as err:", "        except RuntimeError as err:", 'RecursionError is a RuntimeError'),
+    # ---- C16
+    V('c16-backslash-alt', 'C16', 'bad', 'R16.1', K, r'''(r"'(''|\\'|[^'])*'", tokens.String.Single)''', r'''(r"'(''|\\\\|\\'|[^'])*'", tokens.String.Single)'''),
+    V('c16-ws-comma-star', 'C16', 'bad', 'R16.1', K, r"(r'\s+?', tokens.Whitespace)", r"(r'(\s+|\s*,)*;', tokens.Whitespace)"),
+    V('c16-word-star', 'C16', 'bad', 'R16.1', K, r"(r'PRIMARY\s+KEY\b', tokens.Keyword)", r"(r'PRIMARY(\s+\w+\s?)*KEY\b', tokens.Keyword)"),
+    V('c16-comment-plus', 'C16', 'bad', 'R16.1', K, r"(r'(--|# ).*?(\r\n|\r|\n|$)', tokens.Comment.Single)", r"(r'(--|# ).*?(\r\n|\r|\n|$)+', tokens.Comment.Single)"),
+    V('c16-strip-comments-regex', 'C16', 'bad', 'R16.3', FO, r"m = re.search(r'([\r\n]+) *$', token.value)", r"m = re.search(r'((\r\n|\r|\n)+) *$', token.value)", 'the 0.4.4 advisory'),
+    V('c16-ok-possessive-free', 'C16', 'ok', '', K, r"(r'ORDER\s+BY\b', tokens.Keyword)", r"(r'ORDER\s+BY\b(?!\w)', tokens.Keyword)"),
+    # ---- C17
+    V('c17-no-end-while', 'C17', 'bad', 'R17.3', SP, "if unified in ('END IF', 'END FOR', 'END WHILE'):", "if unified in ('END IF', 'END FOR'):"),
+    V('c17-end-in-case-zero', 'C17', 'bad', 'R17.3', SP, "            else:\n                self._in_case = False\n            return -1", "            else:\n                self._in_case = False\n                return 0\n            return -1"),
+    V('c17-no-reset-case', 'C17', 'bad', 'R17.4', SP, "        self._in_case = False\n        self._is_create = False", "        self._is_create = False"),
+    V('c17-if-outside-begin', 'C17', 'bad', 'R17.3', SP, "                and self._is_create and self._begin_depth > 0):", "                and self._is_create):"),
+    # ---- C18
+    V('c18-no-skip-cm', 'C18', 'bad', 'R18.1', S, "        token = self.token_first(skip_cm=True)", "        token = self.token_first()"),
+    V('c18-value-not-normalized', 'C18', 'bad', 'R18.2', S, "        elif token.ttype in (T.Keyword.DML, T.Keyword.DDL):\n            return token.normalized", "        elif token.ttype in (T.Keyword.DML, T.Keyword.DDL):\n            return token.value"),
+    V('c18-select-untyped', 'C18', 'bad', 'R18.3', K, "    'SELECT': tokens.Keyword.DML,", "    'SELECT': tokens.Keyword,"),
+    # ---- C19
+    V('c19-split-no-encoding', 'C19', 'bad', 'R19.2', I, "return [str(stmt).strip() for stmt in stack.run(sql, encoding)]", "return [str(stmt).strip() for stmt in stack.run(sql)]"),
+    V('c19-format-decodes', 'C19', 'bad', 'R19.1', I, "    stack = engine.FilterStack()\n    options = formatter.validate_options(options)", "    if isinstance(sql, bytes):\n        sql = sql.decode(encoding or 'utf-8')\n    stack = engine.FilterStack()\n    options = formatter.validate_options(options)"),
+    V('c19-outfile-utf8', 'C19', 'bad', 'R19.6', C, "stream = open(args.outfile, 'w', encoding=args.encoding)", "stream = open(args.outfile, 'w', encoding='utf-8')"),
+    V('c19-unicode-escape', 'C19', 'bad', 'R19.4', L, "text = text.decode('latin-1')", "text = text.decode('unicode-escape')", 'the defect fixed by 17d69fb'),
+    V('c19-ok-utf8-alias', 'C19', 'ok', '', L, "text = text.decode('utf-8')", "text = text.decode('utf8')"),
+    # ---- C20
+    V('c20-no-lock', 'C20', 'bad', 'R20.1', L, "        with cls._lock:\n            if cls._default_instance is None:\n                cls._default_instance = cls()\n                cls._default_instance.default_initialization()", "        if cls._default_instance is None:\n            cls._default_instance = cls()\n            cls._default_instance.default_initialization()", 'the pre-0.5.0 getter'),
+    V('c20-lock-in-method', 'C20', 'bad', 'R20.1', L, "    _lock = Lock()\n", "    _lock = None\n"),
+    V('c20-cache-in-self', 'C20', 'bad', 'R20.2', L, "        val = value.upper()\n        for kwdict", "        val = self._last = value.upper()\n        for kwdict"),
+    V('c20-no-reset-in-case', 'C20', 'bad', 'R20.3', SP, "        self._in_case = False\n        self._is_create = False", "        self._is_create = False"),
+    V('c20-module-splitter', 'C20', 'bad', 'R20.4', FS, "class FilterStack:\n", "_SPLITTER = StatementSplitter()\n\n\nclass FilterStack:\n"),
+    V('c20-mutable-default', 'C20', 'bad', 'R20.4', FS, "    def __init__(self, strip_semicolon=False):", "    def __init__(self, strip_semicolon=False, filters=[]):"),
+    V('c20-new-type-in-func', 'C20', 'bad', 'R20.5', G, "        return token.ttype == T.Keyword.TZCast", "        return token.ttype == T.Keyword.TZCast or token.ttype == T.Keyword.Join"),
+    V('c20-clear-keeps-keywords', 'C20', 'bad', 'R20.6', L, "        self._SQL_REGEX = []\n        self._keywords = []", "        self._SQL_REGEX = []"),
+    V('c20-ok-rlock', 'C20', 'ok', '', L, "    _lock = Lock()\n", "    _lock = Lock()  # class-level, created at import\n"),
+]
+
+WHOLE_FILE = {
+    'c01-ok-rename': lambda s: s.replace('iterable', 'it_'),
+    'c03-ok-rename': lambda s: s.replace('tidx_offset', 'shift'),
+    'c09-ok-rename': lambda s: s.replace('opens', 'stack_'),
+    'c15-try-only-group': lambda s: s.replace(
+        "        try:\n            stream = lexer.tokenize(sql, encoding)",
+        "        if True:\n            stream = lexer.tokenize(sql, encoding)").replace(
+        "                if self._grouping:\n                    stmt = grouping.group(stmt)\n",
+        "                if self._grouping:\n                    try:\n                        stmt = grouping.group(stmt)\n                    except RecursionError as err:\n                        raise SQLParseError('Maximum recursion depth exceeded') from err\n").replace(
+        "        except RecursionError as err:\n            raise SQLParseError('Maximum recursion depth exceeded') from err\n", ""),
+}
+
+
+def apply(v, src):
+    if v['id'] in WHOLE_FILE:
+        new = WHOLE_FILE[v['id']](src)
+        return new if new != src else None
+    if src.count(v['old']) != 1:
+        return None
+    return src.replace(v['old'], v['new'])
+
+
+def _run_one(args):
+    v, root = args
+    try:
+        base = Repo(root)
+        src = base.files.get(v['file'])
+        if src is None:
+            return dict(id=v['id'], outcome='skipped', why='file missing')
+        new = apply(v, src)
+        if new is None:
+            return dict(id=v['id'], outcome='skipped', why='anchor text no longer occurs exactly once')
+        mod = importlib.import_module(f'sa.props.{v["prop"].lower()}')
+        # baseline refuted keys
+        c0 = report.Ctx(v['prop'], base, 'quick')
+        mod.run(c0)
+        base_ref = {(o.rule, o.key) for o in c0.obs if o.status == 'refuted'}
+        try:
+            r2 = Repo(root, overlay={v['file']: new})
+        except AnalysisError as e:
+            return dict(id=v['id'], outcome='skipped', why=f'variant does not parse: {e}')
+        c1 = report.Ctx(v['prop'], r2, 'quick')
+        try:
+            mod.run(c1)
+            err = None
+        except AnalysisError as e:
+            err = str(e)
+        new_ref = [o for o in c1.obs if o.status == 'refuted' and (o.rule, o.key) not in base_ref]
+        und = [o for o in c1.obs if o.status == 'undetermined']
+        fired_rules = sorted({o.rule for o in new_ref})
+        if v['kind'] == 'bad':
+            hit = [o for o in new_ref if o.rule.startswith(v['rule'])]
+            if hit:
+                return dict(id=v['id'], outcome='fired', rules=fired_rules, example=f'[{hit[0].rule}] {hit[0].loc}: {hit[0].detail[:140]}')
+            if new_ref:
+                return dict(id=v['id'], outcome='fired-other-rule', rules=fired_rules, expected=v['rule'], example=f'[{new_ref[0].rule}] {new_ref[0].detail[:140]}')
+            if err or und:
+                return dict(id=v['id'], outcome='analysis-error', why=err or und[0].detail)
+            return dict(id=v['id'], outcome='MISSED', expected=v['rule'])
+        else:
+            if new_ref:
+                return dict(id=v['id'], outcome='FALSE-ALARM', rules=fired_rules, example=f'[{new_ref[0].rule}] {new_ref[0].detail[:140]}')
+            if err or und:
+                return dict(id=v['id'], outcome='analysis-error', why=err or und[0].detail)
+            return dict(id=v['id'], outcome='silent')
+    except Exception as e:          # pragma: no cover
+        import traceback
+        return dict(id=v['id'], outcome='analysis-error', why=f'{type(e).__name__}: {e}', tb=traceback.format_exc()[-400:])
 
 
 def run_for(pid, root):
-    return {'results': [], 'note': 'no variants registered yet'}
+    vs = [v for v in VARIANTS if v['prop'] == pid]
+    if not vs:
+        return {'results': [], 'note': 'no variants registered'}
+    workers = min(16, len(vs), os.cpu_count() or 1)
+    with cf.ProcessPoolExecutor(max_workers=workers) as ex:
+        results = list(ex.map(_run_one, [(v, root) for v in vs]))
+    summary = {}
+    for r in results:
+        summary[r['outcome']] = summary.get(r['outcome'], 0) + 1
+    return {'results': results, 'summary': summary,
+            'rule': 'bad variants must make the named rule fire (fired / fired-other-rule count as detected); ok variants must stay silent; '
+                    'skipped = anchor no longer present in /repo'}
